@@ -2,6 +2,7 @@ package props
 
 import (
 	"go/ast"
+	"go/types"
 	"sort"
 	"strings"
 
@@ -22,6 +23,8 @@ func init() {
 
 func runC17(c *core.Ctx) {
 	const pk = "pdf/internal/pdftree"
+	defer rulePutOwnsObject(c)
+	defer ruleIteratorStateFresh(c)
 	c.Check("C17-R1", pk+".node-shapes", "every non-root node is written with /Limits and no root is: the dictionary literals of the leaf/intermediate writers contain Limits, those of the root writers do not", func(o *core.Ob) {
 		pkg := c.Prog.Pkg(pk)
 		nNodes, nRoots := 0, 0
@@ -272,4 +275,150 @@ func conjunctSet(e ast.Expr) string {
 	walk(e)
 	sort.Strings(parts)
 	return strings.Join(parts, "&&")
+}
+
+// rulePutOwnsObject (C17-R7): pdf.Writer.Put may defer writing an object
+// (while a stream is open on the writer, objects are queued and written when
+// the stream is closed).  The node dictionaries a tree writer hands to Put
+// must therefore not share slices or maps with storage the tree writer keeps
+// and reuses for the next node: a later node would overwrite the queued one.
+func rulePutOwnsObject(c *core.Ctx) {
+	const pk = "pdf/internal/pdftree"
+	c.Check("C17-R7", pk+"/put-owns-object", "no object passed to Writer.Put shares backing storage with fields of the tree writer", func(o *core.Ob) {
+		pkg := c.Prog.Pkg(pk)
+		n := 0
+		for _, fn := range c.Prog.Funcs(pkg) {
+			info := fn.Info()
+			for _, call := range core.CallsTo(info, fn.Decl.Body, true, "pdf.(*Writer).Put") {
+				n++
+				o.Count(1)
+				o.At(fn.Site(call, "node written"))
+				if p, ok := backingFromReceiver(fn, call.Args[1]); ok {
+					o.FailAt(fn.Site(call, ""), "%s: the object given to Put shares storage with the tree writer's own state (%s); Put may write it only later, after the storage has been reused", c.Prog.Pos(call.Pos()), p)
+				}
+			}
+		}
+		o.Require(n >= 4, "expected at least four Put calls in the tree writer, found %d", n)
+	})
+}
+
+// ruleIteratorStateFresh (C17-R8): an iter.Seq value may be ranged over more
+// than once; each run must enumerate all entries.  State that the
+// enumeration mutates (the visited-set that protects against reference
+// cycles) has to be created inside the iterator function; if it is created
+// once in the method that returns the iterator and captured, the second run
+// starts with the first run's state and silently skips everything already
+// visited.
+func ruleIteratorStateFresh(c *core.Ctx) {
+	// does fn (a repository function) mutate its parameter number idx (map store / delete), directly or through calls?
+	var mutatesParam func(fn *core.Func, idx int, depth int) bool
+	mutatesParam = func(fn *core.Func, idx int, depth int) bool {
+		if fn == nil || depth > 3 {
+			return false
+		}
+		var p types.Object
+		i := 0
+		for _, fl := range fn.Decl.Type.Params.List {
+			for _, nm := range fl.Names {
+				if i == idx {
+					p = fn.Info().Defs[nm]
+				}
+				i++
+			}
+		}
+		if p == nil {
+			return false
+		}
+		return mutatesObj(c, fn, fn.Decl.Body, p, depth, mutatesParam)
+	}
+	n := 0
+	for _, pkg := range c.Prog.RepoPkgs() {
+		if !strings.HasSuffix(pkg.PkgPath, "/internal/pdftree") && !strings.HasSuffix(pkg.PkgPath, "/nametree") && !strings.HasSuffix(pkg.PkgPath, "/numtree") {
+			continue
+		}
+		for _, fn := range c.Prog.Funcs(pkg) {
+			fn := fn
+			res := fn.Obj.Type().(*types.Signature).Results()
+			if res.Len() != 1 || !strings.HasPrefix(core.TypeString(res.At(0).Type()), "iter.Seq") {
+				continue
+			}
+			n++
+			c.Check("C17-R8", fn.Key+"/fresh-state", "mutable enumeration state is created inside the iterator function, so that every run of the iterator starts afresh", func(o *core.Ob) {
+				info := fn.Info()
+				o.At(fn.Site(fn.Decl, "returns an iterator"))
+				ast.Inspect(fn.Decl.Body, func(m ast.Node) bool {
+					rs, ok := m.(*ast.ReturnStmt)
+					if !ok || len(rs.Results) != 1 {
+						return true
+					}
+					lit, ok := ast.Unparen(rs.Results[0]).(*ast.FuncLit)
+					if !ok {
+						return true
+					}
+					o.Count(1)
+					// captured variables of map or slice type that the closure mutates
+					captured := map[types.Object]bool{}
+					ast.Inspect(lit.Body, func(x ast.Node) bool {
+						if id, ok := x.(*ast.Ident); ok {
+							if v, ok := info.Uses[id].(*types.Var); ok && !v.IsField() && v.Pos() < lit.Pos() && v.Parent() != v.Pkg().Scope() && v.Pos() > fn.Decl.Body.Pos() {
+								switch v.Type().Underlying().(type) {
+								case *types.Map, *types.Slice, *types.Pointer:
+									captured[v] = true
+								}
+							}
+						}
+						return true
+					})
+					for v := range captured {
+						o.Count(1)
+						if mutatesObj(c, fn, lit.Body, v, 0, mutatesParam) {
+							o.FailAt(fn.Site(lit, ""), "%s: the iterator mutates %s, which is created once outside the iterator function: a second run of the iterator sees the state left by the first", c.Prog.Pos(v.Pos()), v.Name())
+						}
+					}
+					return true
+				})
+			})
+		}
+	}
+	c.Floor("C17-R8", 2)
+	_ = n
+}
+
+// mutatesObj reports whether the code under root stores into the map/slice
+// obj, deletes from it, or passes it to a repository function that does.
+func mutatesObj(c *core.Ctx, fn *core.Func, root ast.Node, obj types.Object, depth int, rec func(*core.Func, int, int) bool) bool {
+	info := fn.Info()
+	found := false
+	ast.Inspect(root, func(m ast.Node) bool {
+		if found {
+			return false
+		}
+		switch x := m.(type) {
+		case *ast.AssignStmt:
+			for _, l := range x.Lhs {
+				if ix, ok := ast.Unparen(l).(*ast.IndexExpr); ok && core.ObjOf(info, ix.X) == obj {
+					found = true
+				}
+			}
+		case *ast.IncDecStmt:
+			if ix, ok := ast.Unparen(x.X).(*ast.IndexExpr); ok && core.ObjOf(info, ix.X) == obj {
+				found = true
+			}
+		case *ast.CallExpr:
+			if id, ok := x.Fun.(*ast.Ident); ok && (id.Name == "delete" || id.Name == "clear") && len(x.Args) >= 1 && core.ObjOf(info, x.Args[0]) == obj {
+				found = true
+			}
+			if callee := core.Callee(info, x); callee != nil {
+				if cf := c.Prog.FuncOf(callee); cf != nil {
+					for i, a := range x.Args {
+						if core.ObjOf(info, a) == obj && rec(cf, i, depth+1) {
+							found = true
+						}
+					}
+				}
+			}
+		}
+		return true
+	})
+	return found
 }
